@@ -202,7 +202,7 @@ def gen_cases(rng, tier):
                      "sigma": [_q(rng.choice([1, 2, Fraction(1, 2)])), _q(rng.choice([1, 2, -1]))]}
                 cases.append(c)
     # ---- boundary terms ---------------------------------------------------------------------------
-    for _ in range(reps):
+    for _ in range(1 if quick else 2):
         for time in (False, True):
             for dx in (1, 2):
                 D = dx + (1 if time else 0)
